@@ -335,15 +335,19 @@ package mapping
 //@   loop 1 iteration-ensures [field-i-processed] calls(u.processField) == 1 && arg(rte.Field, 0) == at_head(i) && arg(rve.Field, 1) == at_head(i) && arg(u.processField, 1) == ret(rte.Field) && arg(u.processField, 2) == ret(rve.Field) && ret(processField) == nil && i == at_head(i) + 1 && arg(u.processField, 3) == m && arg(u.processField, 4) == fullName
 //@   ensures [invalid-destination] ret(ValidatePtr) != nil ==> result == ret(ValidatePtr) && calls(processField) == 0
 //@   ensures [non-struct-destination] ret(ValidatePtr) == nil && ret(Kind) != 25 ==> result == errValueNotStruct && calls(processField) == 0
-// processField: a field tagged for another source is skipped; an embedded struct goes to the anonymous path,
-// everything else to the named path.
+// processField: a field tagged for another source is skipped; an embedded STRUCT (or pointer to one) goes to the
+// anonymous path - which enumerates the struct's fields -, everything else, an embedded non-struct type such as
+// `type Level string` included, to the named path.
 //@ func (*Unmarshaler).processField
 //@   prop C05
-//@   opaque usingDifferentKeys, processAnonymousField, processNamedField
+//@   opaque usingDifferentKeys, processAnonymousField, processNamedField, Deref
 //@   requires u != nil
+//@   replay mapping_anonymous
+//@   let embeddedStruct = field.Anonymous && calls(Deref) == 1 && arg(Deref, 0) == field.Type && ret(ret(Deref).Kind) == 25
 //@   ensures [other-source-skipped] ret(usingDifferentKeys) ==> result == nil && calls(processAnonymousField) == 0 && calls(processNamedField) == 0
-//@   ensures [embedded] !ret(usingDifferentKeys) && field.Anonymous ==> calls(u.processAnonymousField, field, value, m, fullName) == 1 && result == ret(processAnonymousField) && calls(processNamedField) == 0
-//@   ensures [named] !ret(usingDifferentKeys) && !field.Anonymous ==> calls(u.processNamedField, field, value, m, fullName) == 1 && result == ret(processNamedField) && calls(processAnonymousField) == 0
+//@   ensures [only-structs-are-expanded] calls(processAnonymousField) >= 1 ==> embeddedStruct
+//@   ensures [embedded] !ret(usingDifferentKeys) && embeddedStruct ==> calls(u.processAnonymousField, field, value, m, fullName) == 1 && result == ret(processAnonymousField) && calls(processNamedField) == 0
+//@   ensures [named] !ret(usingDifferentKeys) && !embeddedStruct ==> calls(u.processNamedField, field, value, m, fullName) == 1 && result == ret(processNamedField) && calls(processAnonymousField) == 0
 // Embedded structs: a key naming the embedded struct itself is an error (its fields are read from the enclosing
 // object); optional embedded => the optional path, else every field of it is required to be processed.
 //@ func (*Unmarshaler).processAnonymousField
@@ -356,8 +360,13 @@ package mapping
 //@   ensures [required-path] ret(parseOptionsWithContext, 2) == nil && !ret(getValue, 1) && !ret(optional) ==> calls(u.processAnonymousFieldRequired) == 1 && result == ret(processAnonymousFieldRequired) && calls(processAnonymousFieldOptional) == 0
 //@ func (*Unmarshaler).processAnonymousFieldRequired
 //@   prop C05
-//@   opaque maybeNewValue, Deref, processField
+//@   opaque maybeNewValue, Deref, processField, settableOrAllocated
 //@   requires u != nil
+//@   replay mapping_anonymous
+// an embedded nil pointer is allocated only when reflection may set it (a pointer to an unexported type may not:
+// that is an error, as in encoding/json, not a panic)
+//@   ensures [allocated-only-when-possible] calls(maybeNewValue) >= 1 ==> calls(settableOrAllocated, fieldType, value) == 1 && ret(settableOrAllocated) && before(settableOrAllocated, maybeNewValue)
+//@   ensures [unsettable-embedded-pointer-is-an-error] calls(settableOrAllocated) == 1 && !ret(settableOrAllocated) ==> result == errValueNotSettable && calls(processField) == 0
 //@   loop 1 entry [from-the-first-field] i == 0
 //@   loop 1 invariant 0 <= i
 //@   loop 1 iteration-ensures [every-field-processed-in-order] calls(u.processField) == 1 && ret(processField) == nil && i == at_head(i) + 1 && arg(derefedFieldType.Field, 0) == at_head(i) && arg(indirectValue.Field, 1) == at_head(i) && arg(u.processField, 1) == ret(derefedFieldType.Field) && arg(u.processField, 2) == ret(indirectValue.Field)
@@ -365,8 +374,10 @@ package mapping
 // be present too.
 //@ func (*Unmarshaler).processAnonymousFieldOptional
 //@   prop C05
-//@   opaque maybeNewValue, Deref, processField, parseOptionsWithContext, getValue, optional, Errorf
+//@   opaque maybeNewValue, Deref, processField, parseOptionsWithContext, getValue, optional, Errorf, settableOrAllocated
 //@   requires u != nil
+//@   replay mapping_anonymous
+//@   loop 1 iteration-ensures [allocated-only-when-possible] calls(maybeNewValue) >= 1 ==> calls(settableOrAllocated, fieldType, value) == 1 && ret(settableOrAllocated) && before(settableOrAllocated, maybeNewValue)
 //@   loop 1 entry [from-the-first-field] i == 0 && required == 0 && requiredFilled == 0 && !filled
 //@   loop 1 invariant 0 <= i && 0 <= requiredFilled && requiredFilled <= required && (requiredFilled > 0 ==> filled)
 //@   loop 1 iteration-ensures [present-field-processed] ret(parseOptionsWithContext, 2) == nil && (ret(getValue, 1) ==> calls(u.processField) == 1 && ret(processField) == nil && filled) && (!ret(getValue, 1) ==> calls(processField) == 0 && filled == at_head(filled))
@@ -645,3 +656,8 @@ package mapping
 //@   let ptr = tkind(fieldType.tag, fieldType.val) == 22
 //@   ensures [non-pointer-or-unsettable-unchanged] !ptr || !ret(value.CanSet) ==> result0 == fieldType && result1 == value && calls(maybeNewValue) == 0
 //@   ensures [pointer-allocated-and-followed] ptr && ret(value.CanSet) ==> calls(maybeNewValue, fieldType, value) == 1 && result0 == ret(fieldType.Elem) && result1 == ret(value.Elem) && before(maybeNewValue, value.Elem)
+
+// settableOrAllocated: an embedded field can be expanded unless it is a nil pointer that reflection may not set.
+//@ func settableOrAllocated
+//@   prop C05
+//@   ensures [only-an-unsettable-nil-pointer-cannot] result == !(tkind(fieldType.tag, fieldType.val) == 22 && ret(value.IsNil) && !ret(value.CanSet))
